@@ -13,7 +13,18 @@ var loadFragments = []string{"title: A\n", "title:", "---\n", "===\n", "-> ", "<
 	"\r\n", "\r", "true", "null", "not ", "-", " and ", "stop", "wait 1", "\x00", "\xff", "\xc3", "===", "---", ": ", "tracking: never\n",
 	";", "@", "?", "%", "$ ", "^", "~", "`", "|", "&"}
 
+// the same few scripts come back again and again, cut across readers in another way each time: what a loader remembers
+// about bytes it has seen must not decide whether a reader on its own is a script
+var recurringScripts = []string{
+	"title: Start\n---\nhello\n<<jump Two>>\n===\ntitle: Two\n---\n-> a\n    x\n-> b\nbye\n===\n",
+	"title: A\n---\n<<set $n = 1>>\n{$n} apples\n===\n",
+	"title: StartCut\ntags: x\n---\nline one\nline two\n===\ntitle: Other\n---\nz\n===\n",
+}
+
 func validScript(r *prng.R) string {
+	if r.Intn(8) == 0 {
+		return recurringScripts[r.Intn(len(recurringScripts))]
+	}
 	g := &G{R: r, P: Profiles["flow"]}
 	nn := 1 + r.Intn(3)
 	g.titles = []string{"Start", "A", "B"}[:nn]
